@@ -173,7 +173,23 @@ def make_clause(c):
         return lambda d, p: p * p
     if k == "knockout":
         return lambda d, p: torch.where(d.ul().spot.max(-1).values >= v, torch.zeros_like(p), p)
+    if k == "flaky_shift":
+        return FlakyShift(v)
     raise ValueError(k)
+
+
+class FlakyShift:
+    """a user clause (payoff + v) that raises once when armed (F8: a callback fails in the middle of payoff())"""
+
+    def __init__(self, v):
+        self.v = v
+        self.armed = False
+
+    def __call__(self, d, p):
+        if self.armed:
+            self.armed = False
+            raise RuntimeError("injected clause failure")
+        return p + self.v
 
 
 def clause_ref(c, payoff_list, spot_rows):
@@ -199,7 +215,26 @@ def clause_ref(c, payoff_list, spot_rows):
     return out
 
 
+class ArmablePricer:
+    """a user pricer that can be armed to raise once (F8: the pricing callback of a listed derivative fails)"""
+
+    def __init__(self, fn, code):
+        self.fn = fn
+        self.code = code
+        self.armed = False
+
+    def __call__(self, d):
+        if self.armed:
+            self.armed = False
+            raise RuntimeError("injected pricer failure")
+        return self.fn(d)
+
+
 def make_pricer(code):
+    return ArmablePricer(_make_pricer(code), code)
+
+
+def _make_pricer(code):
     kind, *args = code.split(":")
     if kind == "bs":
         return lambda d: pfn.BlackScholes(d).price(
